@@ -273,7 +273,7 @@ func callSubscriptionsListen(ctx context.Context, conn *jsonrpc2.Connection, met
 
 	go func() {
 		<-ctx.Done()
-		_ = cancelCall(ctx, conn, call)
+		_ = cancelCall(ctx, conn, call, params)
 	}()
 }
 
@@ -296,17 +296,14 @@ func call(ctx context.Context, conn *jsonrpc2.Connection, method string, params 
 		// Setting MCPGODEBUG=blockingcancelnotify=1 restores the previous
 		// behavior of waiting synchronously for delivery inside cancelCall.
 		if blockingcancelnotify == "1" {
-			err := cancelCall(ctx, conn, call)
+			err := cancelCall(ctx, conn, call, params)
 			return errors.Join(ctx.Err(), err)
 		}
 		conn.Retire(call, ctx.Err())
 		go func() {
 			notifyCtx, stop := context.WithTimeout(context.WithoutCancel(ctx), notifyCancellationTimeout)
 			defer stop()
-			_ = conn.Notify(notifyCtx, notificationCancelled, &CancelledParams{
-				Reason:    ctx.Err().Error(),
-				RequestID: call.ID().Raw(),
-			})
+			_ = conn.Notify(notifyCtx, notificationCancelled, cancelledParamsFor(call, params, ctx.Err().Error()))
 		}()
 		return ctx.Err()
 	case err != nil:
@@ -328,15 +325,36 @@ func call(ctx context.Context, conn *jsonrpc2.Connection, method string, params 
 // Therefore, we choose to eagerly retire calls, removing them from the
 // outgoingCalls map, when the caller context is cancelled: if the caller will
 // never receive the response, there's no need to track it.
-func cancelCall(ctx context.Context, conn *jsonrpc2.Connection, call *jsonrpc2.AsyncCall) error {
+func cancelCall(ctx context.Context, conn *jsonrpc2.Connection, call *jsonrpc2.AsyncCall, params Params) error {
 	notifyCtx, cancelNotify := context.WithTimeout(context.WithoutCancel(ctx), notifyCancellationTimeout)
 	defer cancelNotify()
-	err := conn.Notify(notifyCtx, notificationCancelled, &CancelledParams{
-		Reason:    ctx.Err().Error(),
-		RequestID: call.ID().Raw(),
-	})
+	err := conn.Notify(notifyCtx, notificationCancelled, cancelledParamsFor(call, params, ctx.Err().Error()))
 	conn.Retire(call, ctx.Err())
 	return err
+}
+
+// cancelledParamsFor returns the params of the "notifications/cancelled"
+// message for call, whose own params were params.
+//
+// Under SEP-2575 every message carries the per-request `_meta` fields (a
+// stateless server rejects messages without them), so they are copied from the
+// call being cancelled. Legacy calls carry none, and their cancellation is
+// unchanged.
+func cancelledParamsFor(call *jsonrpc2.AsyncCall, params Params, reason string) *CancelledParams {
+	cp := &CancelledParams{Reason: reason, RequestID: call.ID().Raw()}
+	if params == nil || params.isNil() {
+		return cp
+	}
+	meta := params.GetMeta()
+	for _, k := range []string{MetaKeyProtocolVersion, MetaKeyClientInfo, MetaKeyClientCapabilities} {
+		if v, ok := meta[k]; ok {
+			if cp.Meta == nil {
+				cp.Meta = Meta{}
+			}
+			cp.Meta[k] = v
+		}
+	}
+	return cp
 }
 
 // A LoggingTransport is a [Transport] that delegates to another transport,
